@@ -216,15 +216,19 @@ def run_case(case, acc):
         return out
     if mode == 'reuse':
         # the key lives three times on the same index: items, then an EMPTY lifetime, then items again
-        events = [('c', 0)] + [('n', 0, x) for x in seq] + [('d', 0), ('c', 0), ('d', 0), ('c', 0)] + [('n', 0, x) for x in reversed(seq)] + [('d', 0)]
+        # (what the padding operators do with an empty lifetime is not defined: for them the middle lifetime is left out,
+        # and so is the whole case when the sequence itself is empty)
+        padding_op = o[0] in ('pad_start', 'pad_end', 'start_with', 'start_with_as')
+        if padding_op and not seq:
+            return []
+        middle = [] if padding_op else [('c', 0), ('d', 0)]
+        events = [('c', 0)] + [('n', 0, x) for x in seq] + [('d', 0)] + middle + [('c', 0)] + [('n', 0, x) for x in reversed(seq)] + [('d', 0)]
         sink = run_raw_mux(opspecs.build([o]), events)
         acc.evals += 1
         acc.events += len(events) + 1
         acc.traces += 1
-        exp = [('c', (0,))] + [('n', (0,), y) for y in (listdef(o, seq) if seq or o[0] not in ('pad_start', 'pad_end', 'start_with') else [])] + [('d', (0,)), ('c', (0,)), ('d', (0,)), ('c', (0,))] + \
-              [('n', (0,), y) for y in (listdef(o, list(reversed(seq))) if seq or o[0] not in ('pad_start', 'pad_end', 'start_with') else [])] + [('d', (0,))]
-        if o[0] in ('pad_start', 'pad_end', 'start_with', 'start_with_as') and not seq:
-            return []
+        exp = [('c', (0,))] + [('n', (0,), y) for y in listdef(o, seq)] + [('d', (0,))] + [(e[0], (0,)) for e in middle] + [('c', (0,))] + \
+              [('n', (0,), y) for y in listdef(o, list(reversed(seq)))] + [('d', (0,))]
         if sink.error is not None or sink.items != exp:
             return [viol(o, 'mux', 'reused-key-' + str(harness.diff_kind(exp, sink.items)), {'op': o, 'events': events, 'expected': exp, 'observed': sink.items})]
         return []
@@ -270,7 +274,7 @@ def run_case(case, acc):
                             {'op': o, 'events': events, 'expected_key1': exp1, 'observed_key1': got1}))
     acc.traces += 1
     sp = harness.status_problem(sink)
-    if sp:
+    if sp and not undefined_empty:
         out.append(viol(o, mode, sp, {'op': o, 'seq': seq, 'error': repr(sink.error)}))
     if undefined_empty:
         acc.skipped += 1
